@@ -62,3 +62,37 @@ Theorem C14_filename_example :
   [101; 116; 99; 95; 112; 95; 119; 100].
 Proof. exact filename_example. Qed.
 Print Assumptions C14_filename_example.
+
+(* send_from_directory, for any file system (isfile is a section variable): a file is sent only
+   if safe_join accepted the path, the file exists, and it lies inside the directory *)
+Theorem C14_send_from_directory : forall (isfile : str -> bool) d p f,
+  send_from_directory isfile d p = Some f ->
+  isfile f = true /\ inside (normpath (base_dir d)) (normpath f) = true.
+Proof. exact send_from_directory_contained. Qed.
+Print Assumptions C14_send_from_directory.
+
+(* SharedDataMiddleware over directory exports, for any file system: the file that is opened
+   exists and belongs to one export -- either the request path is exactly the export key and the
+   file is the exported path itself, or the request path is the export key extended at a slash
+   (export_prefix sp ends with a slash) by some rest, the file is safe_join dir rest, and it lies
+   inside the exported directory *)
+Theorem C14_shared_data : forall (isfile : str -> bool) exports path f,
+  shared_lookup isfile exports path = Some f ->
+  isfile f = true /\
+  exists sp dir, In (sp, dir) exports /\
+    ((sp = path /\ f = dir)
+     \/ (exists rest, path = export_prefix sp ++ rest /\ safe_join dir [rest] = Some f
+                      /\ inside (normpath (base_dir dir)) (normpath f) = true)).
+Proof. exact shared_lookup_contained. Qed.
+Print Assumptions C14_shared_data.
+
+Theorem C14_export_prefix_ends_at_slash : forall sp, ends_with [SL] (export_prefix sp) = true.
+Proof. exact export_prefix_slash. Qed.
+Print Assumptions C14_export_prefix_ends_at_slash.
+
+Theorem C14_shared_data_example :
+  shared_candidates [([47; 115], [47; 119])] [47; 115; 47; 97; 47; 46; 46; 47; 98] = [[47; 119; 47; 98]]
+  /\ shared_candidates [([47; 115], [47; 119])] [47; 115; 47; 46; 46; 47; 98] = []
+  /\ shared_candidates [([47; 115], [47; 119])] [47; 115; 120; 47; 98] = [].
+Proof. exact shared_example. Qed.
+Print Assumptions C14_shared_data_example.
